@@ -86,7 +86,9 @@ def run(prop, tier, replay=None):
         seqs = scenarios_from(mc)
         singles = read_ndjson(cases)
         if prop == "C07":
-            scns = seqs + [s for s in singles if s[-1]["kind"].startswith(("Scratchpad", "Transaction", "Register")) and s[-1]["parse"] == "ok"]
+            # every sequence twice: disk work settled between deliveries, and parked until the end (lagging index)
+            gated = [[dict(d, gated=True) for d in q] for q in seqs]
+            scns = seqs + gated + [s for s in singles if s[-1]["kind"].startswith(("Scratchpad", "Transaction", "Register")) and s[-1]["parse"] == "ok"]
         else:
             scns = singles + seqs[:: (1 if thorough else 7)]
         write_ndjson(scn_path, scns)
@@ -103,13 +105,17 @@ def run(prop, tier, replay=None):
         starts[i] = cur
 
     def scenario_of(line):
-        return [e["spec"] for e in events[starts[line - 1] + 1:line]]
+        return [e["spec"] for e in events[starts[line - 1] + 1:line] if e["ev"] == "Deliver"]
 
     for x in rep["violations"]:
         e = events[x["line"] - 1]
         if x["clause"] == "Malformed":
             raise ToolError("malformed trace line %d: %s" % (x["line"], json.dumps(e)[:500]))
         if not x["clause"].startswith(PREFIX[prop]):
+            continue
+        if e["ev"] == "Settled":
+            v.violation(x["clause"], "after the parked disk work of the sequence ran, the node holds %s (listed=%s) instead of what it held after the last delivery" % (e["aAfterD"], e["listed"]),
+                        {"area": "nodeput", "scenario": scenario_of(x["line"]), "event": e})
             continue
         v.violation(x["clause"], "delivery %s at line %d: res=%s beforeD=%s afterD=%s afterP=%s gained=%s derivedOK=%s contentOK=%s unverified=%s" % (
             json.dumps(e["d"]), x["line"], e["res"], e["aBeforeD"], e["aAfterD"], e["aAfterP"], e["gained"], e["derivedOK"], e["contentOK"], e["unverified"]),
